@@ -46,7 +46,7 @@ CHECKS["C01"] = {
 CHECKS["C09"] = {
     "level": "fault_enumeration",
     "rule": ("(1) enumeration through the verif hook: every sequence space s in 2..10 (and a 7x7 base/size grid for s=255) x every reachable (base,size<=n) built by addPacket/processACK "
-             "x all 256 ACK values and all 256 NACK values; post-state checked against an unbounded-integer reference (base,top < s; size <= n; top unchanged; base moves only within "
+             "x all 256 ACK values and all 256 NACK values, each state built both within the first trip round the sequence space and after one full lap (every slot of the retransmission buffer used before); post-state checked against an unbounded-integer reference (base,top < s; size <= n; top unchanged; base moves only within "
              "[old base, old top]; values of the sequence space outside the window change nothing; ACK(base) frees a slot; window slots populated); containsSequence vs cyclic membership for all triples. "
              "(2) rapid random (s,base,size,op,value). (3) virtual-time scenarios with a wire monitor: first transmissions minus everything the ACK/NACKs already handed to the sender could acknowledge must be <= N, "
              "and both ends must report n=N, s=N+1. (4) blocking: N+k back-to-back Sends with ACK latency D: the first N return with zero virtual elapsed time, the next not before one RTT and by one RTT (+1ms) per window. "
@@ -179,7 +179,7 @@ CHECKS["C07"] = {
     "rule": ("(1) every byte string of length 0..3, and of length 4 with first byte 0..7 (thorough: all 2^32 over 16 shards), through gbn.Deserialize; all strings <=2 bytes and a header/length grid through MsgData.Deserialize; "
              "(2) all 256 SYN N values against a live NewServerConn followed by SYNACK and one of four follow-ups (data / ACK+NACK with extreme values / another SYN / an honest receiver that acknowledges every DATA packet, after which the hook must report nothing outstanding); "
              "(3) for N in 1..3 (thorough: 1..4) a live client sender driven by a raw peer into every (base mod s, outstanding) state, then one ACK or NACK with each of the 256 sequence values, then 1.5 virtual seconds of running on (resend timer, more sends); "
-             "(3b) TestC07MidResend: the same sender states with >= 2 packets outstanding (N in 2..4, thorough 2..6), every ACK/NACK value in 0..s and 255 delivered while the K-th packet of a retransmission round is being accepted by a transport that takes a millisecond to do so (every K), i.e. processed by the receive loop between two packets of the resend loop; (4) rapid: up to 8 arbitrary/hostile packets injected before, during or after the handshake of a live pair; (5) Noise handshake and record stream fed mutated/truncated/random bytes, stripJSONWrapper+protojson on generated JSON-ish strings (mboxprop units); "
+             "(3a) TestC07QueueWithAPast (hook): all 256 ACK/NACK values against every (base, size) of s=2..6 reached after one or two full laps, same reference as C09's enumeration; (3b) TestC07MidResend: the same sender states with >= 2 packets outstanding (N in 2..4, thorough 2..6), every ACK/NACK value in 0..s and 255 delivered while the K-th packet of a retransmission round is being accepted by a transport that takes a millisecond to do so (every K), i.e. processed by the receive loop between two packets of the resend loop; (4) rapid: up to 8 arbitrary/hostile packets injected before, during or after the handshake of a live pair; (5) Noise handshake and record stream fed mutated/truncated/random bytes, stripJSONWrapper+protojson on generated JSON-ish strings (mboxprop units); "
              "native fuzzing of the decoders in the thorough tier. Oracle: no panic anywhere (a panic in a connection goroutine kills the worker and is attributed to the running case), Deserialize never returns both value and error, "
              "and the hook reports base,top < s, size <= n, s = n+1 after every step. Non-trivial: the input is not a well-formed packet for the state it is presented in or carries an out-of-range field; distinct by input."),
     "exhaustive_scope": "byte strings <=3 (and the stated 4-byte range); 256 SYN values x 3 follow-ups; all (N<=3, base, size, ACK|NACK, value) injections",
@@ -215,7 +215,7 @@ CHECKS["C04"] = {
     "level": "fault_enumeration",
     "rule": ("(1) exhaustive: all 81 (iMin,iMax,rMin,rMax) in {0,1,2}^4 x {XX,KK}, clean, and for every valid range all 4^3 (XX) / 4^2 (KK) substitutions of the acts' version bytes by 0..3; "
              "(2) exhaustive: every single-bit flip of every byte of every act for XX v0, v1, v2, XX negotiated 0..2 and KK; (3) rapid: payload sizes {0,1,497..501,65535..65537, up to 3 MiB}, nil payload, random multi-byte rewrites, random version substitutions. "
-             "Oracle: if both sides return nil they agree on version (hook), hold complementary traffic keys (hook and a probe record each way), each other's true static key, the same SID and next pattern, onRemoteStatic fired on both or neither; "
+             "Oracle: if both sides return nil they agree on version (hook), hold complementary traffic keys (hook, a probe record each way and, in a quarter of the clean runs, 501 further records each way so that the first key rotation is passed from the state the handshake left behind), each other's true static key, the same SID and next pattern, onRemoteStatic fired on both or neither; "
              "every party that completed holds a version inside its own configured [min,max]; an initiator that completed holds exactly the responder's payload, also when its ConnData already held auth data from an earlier handshake (drawn in a third of the rapid cases), and still holds it after an unrelated pair of parties (other keys, another payload of the same length) has run its handshake in the same process (every clean completion). Non-trivial: the relay changed a byte, or the negotiated version differs from a side's maximum; distinct by case."),
     "exhaustive_scope": "81 ranges x 2 patterns x all version-byte substitutions; all single-bit flips of 5 handshakes",
     "assumptions": ["scrypt cost lowered by the verif hook"],
